@@ -18,13 +18,14 @@ STACKS = [
     ("r9/s9", []),
     ("anb/sa", [{}, {"m": "inv", "a": 2, "b": 0}]), ("anb/sa", [{}, {"m": "inv", "a": 3, "b": 1}]),
     ("anb/sa", [{}, {"m": "new", "b": 3}]), ("anb/sa", [{}, {"m": "span", "a": 1 << 20, "b": 2}]),
-    ("anb/sza", [{}, {"m": "inv", "a": 2, "b": 0}]), ("anb/sza", [{}, {"m": "new", "b": 3}]),
+    # (zero selectors: billions of zeros, so never a tiny inventory quantum -- 2^2 zeros per entry would be a 8 GB inventory)
+    ("anb/sza", [{}, {"m": "inv", "a": 14, "b": 0}]), ("anb/sza", [{}, {"m": "new", "b": 3}]),
     ("anb/sac12_3", []), ("anb/sac3_0", []), ("anb/sac0_0", []), ("anb/szac12_3", []), ("anb/szac3_0", []),
     ("rs0/ss0", [{}, {"m": "new"}]), ("rs1/ss1", [{}, {"m": "new"}]), ("rs2/ss2", [{}, {"m": "inv", "a": 1}]),
     ("rs3/ss3", [{}, {"m": "new"}]), ("rs4/ss4", [{}, {"m": "inv", "a": 2}]),
     ("rs0/szs0", [{}, {"m": "new"}]), ("rs1/szs1", [{}, {"m": "inv", "a": 1}]), ("rs2/szs2", [{}, {"m": "new"}]),
     ("rs3/szs3", [{}, {"m": "new"}]), ("rs4/szs4", [{}, {"m": "new"}]),
-    ("rs1/ss1/szs1", [{}, {"m": "new"}, {"m": "new"}]), ("r9/sa/sza", [{}, {"m": "inv", "a": 2, "b": 0}, {"m": "inv", "a": 2, "b": 0}]),
+    ("rs1/ss1/szs1", [{}, {"m": "new"}, {"m": "new"}]), ("r9/sa/sza", [{}, {"m": "inv", "a": 2, "b": 0}, {"m": "inv", "a": 13, "b": 1}]),
 ]
 
 
@@ -64,10 +65,35 @@ def vectors(r, big):
     return vs
 
 
-def ops_for(r, n, ones):
-    m = len(ones)
+def runs_of(ones):
+    """maximal runs [s, e) of a sorted list of positions"""
+    out = []
+    for p in ones:
+        if out and out[-1][1] == p:
+            out[-1][1] = p + 1
+        else:
+            out.append([p, p + 1])
+    return out
+
+
+def dense_vectors(r, big):
+    """(len, runs) with billions of ones: counters of whole upper blocks are non-zero, ranks are wide"""
+    vs = []
+    base = P32
+    vs.append((base + (1 << 17), [[7000, base + (1 << 17)]]))                       # zeros first, then all ones
+    vs.append((base + 100000, [[0, base - 12345], [base + 5, base + 77], [base + 90000, base + 100000]]))
+    vs.append((base + 4096, [[0, base + 4096]]))                                    # all ones
+    vs.append((base + 70000, [[1 << 31, (1 << 31) + 10], [base - 64, base + 64], [base + 1000, base + 60000]]))
+    if big:
+        vs.append((2 * base + 1000, [[100, base + 200], [base + 300, 2 * base - 7], [2 * base + 5, 2 * base + 999]]))
+    return vs
+
+
+def ops_for(r, n, runs):
+    ends = sorted({x for s, e in runs for x in (s, e)})
+    m = sum(e - s for s, e in runs)
     ps = {0, 1, P32 - 1, P32, P32 + 1, n - 1, n, n + 1, n + 64, (1 << 64) - 1}
-    for o in ones[:6] + ones[-6:] + r.sample(ones, min(len(ones), 12)):
+    for o in ends[:8] + ends[-8:] + r.sample(ends, min(len(ends), 12)):
         ps |= {o, o + 1, max(0, o - 1)}
     ops = [{"op": "len"}, {"op": "num_ones"}, {"op": "num_zeros"}]
     for p in sorted(ps):
@@ -75,15 +101,23 @@ def ops_for(r, n, ones):
         ops.append({"op": "rank_zero", "p": L(p)})
         if p <= n:
             ops.append({"op": "index", "p": L(p)})
-    rs = set(range(m + 2)) if m <= 60 else set(range(8)) | {m - 2, m - 1, m, m + 1} | {r.randrange(m) for _ in range(40)}
-    rs |= {1 << 33, (1 << 64) - 1}
-    for x in sorted(rs):
+    # ranks of ones: around the cumulative counts at the run ends, around 2^32, at and past the count
+    rs = {0, 1, 2, m - 2, m - 1, m, m + 1, P32 - 1, P32, P32 + 1, 1 << 33, (1 << 64) - 1}
+    cum = 0
+    for s, e in runs[:40]:
+        rs |= {cum - 1, cum, cum + 1, cum + (e - s) // 2}
+        cum += e - s
+    rs |= {r.randrange(max(1, m)) for _ in range(30)}
+    for x in sorted(v for v in rs if v >= 0):
         ops.append({"op": "select", "r": L(x)})
     z = n - m
     zs = {0, 1, 2, z - 2, z - 1, z, z + 1, P32 - 1, P32, P32 + 1, (1 << 64) - 1}
-    for j, o in enumerate(ones[:5] + ones[-5:]):
-        i = ones.index(o)
-        zs |= {max(0, o - i - 1), o - i, o - i + 1}
+    cum, prev = 0, 0
+    for s, e in runs[:40]:
+        cum += s - prev
+        zs |= {cum - 1, cum, cum + 1}
+        prev = e
+    zs |= {r.randrange(max(1, z)) for _ in range(20)}
     for x in sorted(v for v in zs if v >= 0):
         ops.append({"op": "select_zero", "r": L(x)})
     return ops
@@ -93,12 +127,19 @@ def ops_for(r, n, ones):
 # vectors beyond 2^32 bits (64-bit spans that are not the first entry, inventory entries next to an upper block)
 ESSENTIAL = [(-3, 7), (-3, 8), (-3, 11), (-2, 18), (-2, 21), (-2, 24), (-1, 19), (-1, 22), (1, 7), (2, 18), (0, 0), (0, 3),
              (0, 6), (3, 22), (3, 14), (5, 2), (6, 23), (2, 28), (-3, 29), (-2, 20), (-1, 25)]
+# (dense vector index, stack index)
+DENSE = [(0, 18), (0, 21), (0, 1), (1, 19), (1, 9), (1, 24), (2, 20), (2, 13), (3, 22), (3, 6), (0, 16), (1, 4), (2, 0), (3, 27)]
 
 
 def episodes(seed, count, big=False):
     r = random.Random(seed ^ 0xB16)
     vs = vectors(r, big)
+    ds = dense_vectors(r, big)
     eps = []
+
+    def ep(n, runs, key, layers):
+        return {"fam": "rsbig", "src": "recipe", "len": L(n), "runs": [[L(s), L(e)] for s, e in runs], "key": key,
+                "layers": layers, "ops": [{"op": "build"}] + ops_for(r, n, runs), "budget_ms": 300000}
     for k in range(count):
         if k < len(ESSENTIAL):
             vi, si = ESSENTIAL[k]
@@ -107,6 +148,10 @@ def episodes(seed, count, big=False):
         else:
             n, ones = vs[k % len(vs)]
             key, layers = STACKS[(k * 7 + seed) % len(STACKS)]
-        eps.append({"fam": "rsbig", "src": "recipe", "len": L(n), "ones": [L(o) for o in ones], "key": key, "layers": layers,
-                    "ops": [{"op": "build"}] + ops_for(r, n, ones), "budget_ms": 300000})
+        eps.append(ep(n, runs_of(ones), key, layers))
+    for k in range(max(len(DENSE), count // 2) if count > len(DENSE) else len(DENSE)):
+        vi, si = DENSE[k] if k < len(DENSE) else (k % len(ds), (k * 5 + seed) % len(STACKS))
+        n, runs = ds[vi % len(ds)]
+        key, layers = STACKS[si]
+        eps.append(ep(n, runs, key, layers))
     return eps
